@@ -15,13 +15,13 @@ def make_obs(ctx):
                           {'WD': wd, 'NLO': lo, 'NHI': hi}, units=UNITS, group='d-equiv', timeout=600,
                           bounds={'weekday': wd, 'n': '%d..%d (symbolic)' % (lo, hi)}))
     wins = core.year_windows(ctx.tier, ctx.seed, step=5,
-                             quick=[(1900, 1900), (2000, 2000), (2003, 2004)])
+                             quick=[(1900, 1900), (2000, 2000), (2003, 2003)])
     if ctx.tier == 'quick':
         wins[-1] = (wins[-1][0], wins[-1][0])
     for (lo, hi) in wins:
         d = {'YLO': lo, 'YHI': hi}
         b = {'days': 'every day of %d..%d' % (lo, hi)}
-        for rp, nmax, uw in (('ymd', 22, 4), ('yd', 100, 3), ('ymcw', 20, 5), ('daisy', 250, 2), ('ywd', 20, 3)):
+        for rp, nmax, uw in (('ymd', 22, 4), ('yd', 100, 3), ('ymcw', 20, 5), ('daisy', 100, 2), ('ywd', 20, 3)):
             obs.append(Ob('add-b:%s:%d-%d' % (rp, lo, hi), H, 'h_add_b', dict(d, REP=REPS[rp], NMAX=nmax),
                           units=UNITS, unwind=uw, group='add-b:%s' % rp,
                           bounds=dict(b, n='1 <= |n| <= %d business days' % nmax, unwind=uw),
